@@ -301,6 +301,8 @@ def _mk_elem(kind, dim):
         return np.array([1, 0, 1])
     if kind == "ia2":
         return np.array([[0, 1], [1, 0], [1, 1]])
+    if kind == "bool0":
+        return True
     if kind == "ba1":
         m = np.zeros(dim, dtype=bool)
         m[0] = m[dim - 1] = True
@@ -311,13 +313,15 @@ def _mk_elem(kind, dim):
 def gen_indices(shape):
     """all index tuples of length <= rank+1 over the kinds, valid for numpy"""
     rank = len(shape)
-    kinds = ["int", "neg", "slice", "slice2", "none", "ell", "ia1", "ia2", "ba1"]
+    kinds = ["int", "neg", "slice", "slice2", "none", "ell", "ia1", "ia2", "ba1", "bool0"]
     out = []
     for L in range(1, rank + 2):
         for ks in itertools.product(kinds, repeat=L):
             if ks.count("ell") > 1:
                 continue
-            consuming = [k for k in ks if k not in ("none", "ell")]
+            if ks.count("bool0") > 1 or ("bool0" in ks and any(k in ("ia1", "ia2", "ba1", "int", "neg") for k in ks)):
+                continue  # a boolean scalar combined with other advanced indices (arrays, integers) broadcasts with them: not enumerated
+            consuming = [k for k in ks if k not in ("none", "ell", "bool0")]
             if len(consuming) > rank:
                 continue
             if ks.count("none") > 2 or sum(k in ("ia1", "ia2", "ba1") for k in ks) > 2:
@@ -329,12 +333,15 @@ def gen_indices(shape):
             ok = True
             for i, k in enumerate(ks):
                 if k == "ell":
-                    rest = [x for x in ks[i + 1 :] if x not in ("none",)]
+                    rest = [x for x in ks[i + 1 :] if x not in ("none", "bool0")]
                     ax = rank - len(rest)
                     elems.append(Ellipsis)
                     continue
                 if k == "none":
                     elems.append(None)
+                    continue
+                if k == "bool0":
+                    elems.append(True)
                     continue
                 if ax >= rank:
                     ok = False
@@ -359,12 +366,12 @@ def _expected_mapping(shape, ks, index):
     ax = 0
     for i, k in enumerate(ks):
         if k == "ell":
-            rest = [x for x in ks[i + 1 :] if x != "none"]
+            rest = [x for x in ks[i + 1 :] if x not in ("none", "bool0")]
             for a_ in range(ax, rank - len(rest)):
                 src_kind[a_] = "slice"
             ax = rank - len(rest)
             continue
-        if k == "none":
+        if k in ("none", "bool0"):
             continue
         src_kind[ax] = "slice" if k.startswith("slice") else ("int" if k in ("int", "neg") else "adv")
         ax += 1
